@@ -1041,7 +1041,16 @@ func (f *Frame) cutLoop(n *xnode, li *loopInfo, st *execState) {
 	} else {
 		st.mem = f.havocLoopMem(li, st)
 		if st.mem != memBefore {
-			st.gh = e.freshGhostFrom(st.gh, fmt.Sprintf(".L%d", li.ordinal))
+			var body []*ssa.BasicBlock
+			for b := range li.body {
+				body = append(body, b)
+			}
+			if f.movesTicks(body, 0) {
+				// the progress counter is loop-carried state as well
+				st.gh = e.freshGhost(fmt.Sprintf(".L%d", li.ordinal))
+			} else {
+				st.gh = e.freshGhostFrom(st.gh, fmt.Sprintf(".L%d", li.ordinal))
+			}
 		}
 	}
 	// unpacked objects are loop-carried state too: if the body may store to
